@@ -47,6 +47,9 @@ type SemOpts struct {
 	// DupLiterals: set literals may repeat an item (legal for a set; used where
 	// only determinism / termination matter)
 	DupLiterals bool
+	// IncludeBias: more files per program and more base names shared between
+	// directories (include-graph order effects)
+	IncludeBias bool
 	// PkgNameClash: file base names equal to packages the generated code imports
 	PkgNameClash bool
 }
@@ -75,6 +78,9 @@ type semGen struct {
 	// noStructRefs: the value being drawn must not reference constants whose
 	// value contains struct literals (see defaultOK)
 	noStructRefs bool
+	// pureOnly: struct literals being drawn give only fields whose type names
+	// no definition (base types and containers of base types)
+	pureOnly bool
 	curFile      *File
 	seq          int
 	chainSvc     map[*File]*Service
@@ -96,6 +102,9 @@ func GenProgram(r *core.Rand, o SemOpts) *Program {
 	g := &semGen{r: r, o: o, structLimit: math.MaxInt32, byFile: map[*File][]*defInfo{}, rank: map[Def]int{}, incl: map[*File][]*Header{}}
 	g.p = &Program{ThriftRoot: "idl"}
 	nf := r.Range(1, o.MaxFiles)
+	if o.IncludeBias && o.MaxFiles >= 4 && r.Chance(1, 2) {
+		nf = r.Range(4, o.MaxFiles)
+	}
 	dirs := []string{"idl"}
 	if o.Dirs {
 		dirs = append(dirs, "idl/"+g.name("d"), "idl/shared", "idl/shared/"+g.name("sub"))
@@ -112,7 +121,7 @@ func GenProgram(r *core.Rand, o SemOpts) *Program {
 			}
 		}
 		// the same base name may occur in several directories
-		if i > 0 && o.Dirs && r.Chance(1, 3) {
+		if i > 0 && o.Dirs && (r.Chance(1, 3) || (o.IncludeBias && r.Chance(1, 3))) {
 			prev := g.p.Files[r.Intn(i)]
 			if path.Dir(prev.Path) != d {
 				base = prev.ModuleName()
@@ -155,7 +164,7 @@ func GenProgram(r *core.Rand, o SemOpts) *Program {
 			}
 		}
 		for j := 2; j < nf; j++ {
-			if r.Chance(1, 3) {
+			if r.Chance(1, 2) {
 				g.include(g.p.Files[0], g.p.Files[j])
 			}
 		}
@@ -303,6 +312,7 @@ func GenProgram(r *core.Rand, o SemOpts) *Program {
 						f.Default = g.constFor(di.file, f.Type, math.MaxInt32, 1)
 						g.structLimit = math.MaxInt32
 						g.noStructRefs = false
+						g.pureOnly = false
 					}
 				}
 			}
@@ -310,6 +320,9 @@ func GenProgram(r *core.Rand, o SemOpts) *Program {
 	}
 	if o.Constants && !o.off("twin-structs") {
 		g.twins() // after defaults: only structs without defaults get a twin
+	}
+	if o.Defaults && !o.ScalarDefaultsOnly && r.Chance(1, 5) {
+		g.mutualDefaults()
 	}
 	if o.Constants && o.ForGen && !o.off("const-refs") {
 		g.constRefs()
@@ -837,11 +850,20 @@ func (g *semGen) defaultOK(di *defInfo, f *Field) bool {
 		// owner of the default. Stay out of that class in the main stream.
 		in := map[*Struct]bool{}
 		structsIn(f.Type, in, 0)
-		for s := range in {
+		pure := false
+		for s := range in { // (order-independent: any unsafe member decides)
 			if g.reaches(s, di.def, map[Def]bool{}) {
-				return false
+				// The finding needs a field of the half-linked struct whose type
+				// is still an unresolved name when the literal is cast. A struct
+				// whose given-or-defaulted fields all have nameless types is
+				// outside it.
+				if _, direct := f.Type.Target.(*Struct); !cycleSafe(s) || f.Type.Kind != TNamed || !direct {
+					return false
+				}
+				pure = true
 			}
 		}
+		g.pureOnly = pure
 		g.noStructRefs = true
 	}
 	if f.Type.Kind == TNamed {
@@ -850,6 +872,41 @@ func (g *semGen) defaultOK(di *defInfo, f *Field) bool {
 			if rt.Kind != TBase && !(rt.Kind == TNamed && isEnum(rt)) && g.o.off("default-on-typedef-of-struct-or-container") {
 				return false
 			}
+		}
+	}
+	return true
+}
+
+// pureType: a type expression that names no definition.
+func pureType(t *TypeRef) bool {
+	if t == nil {
+		return true
+	}
+	switch t.Kind {
+	case TBase:
+		return true
+	case TNamed:
+		return false
+	case TMap:
+		return pureType(t.Key) && pureType(t.Elem)
+	}
+	return pureType(t.Elem)
+}
+
+// cycleSafe: every field of s that a literal of s must give, or that is filled
+// from a default when left out, has a pure type.
+func cycleSafe(s *Struct) bool {
+	if s.Kind == KUnion {
+		for _, f := range s.Fields {
+			if pureType(f.Type) {
+				return true
+			}
+		}
+		return false
+	}
+	for _, f := range s.Fields {
+		if (f.Default != nil || f.Req == ReqRequired) && !pureType(f.Type) {
+			return false
 		}
 	}
 	return true
@@ -1115,8 +1172,19 @@ func (g *semGen) constFor(f *File, t *TypeRef, maxConstRank int, depth int) *Con
 			if d.Kind == KUnion {
 				var ok []*Field
 				for _, fl := range d.Fields {
+					if g.pureOnly && !pureType(fl.Type) {
+						continue
+					}
 					if g.canHaveLiteral(fl.Type) && (g.structLimit == math.MaxInt32 || g.literalUnder(fl.Type, g.structLimit, map[*Struct]bool{})) {
 						ok = append(ok, fl)
+					}
+				}
+				if len(ok) == 0 && g.pureOnly {
+					// a union reached through a required field: take any member
+					for _, fl := range d.Fields {
+						if g.canHaveLiteral(fl.Type) && (g.structLimit == math.MaxInt32 || g.literalUnder(fl.Type, g.structLimit, map[*Struct]bool{})) {
+							ok = append(ok, fl)
+						}
 					}
 				}
 				fl := ok[r.Intn(len(ok))]
@@ -1135,7 +1203,7 @@ func (g *semGen) constFor(f *File, t *TypeRef, maxConstRank int, depth int) *Con
 			}
 			for _, fl := range d.Fields {
 				need := fl.Req == ReqRequired && fl.Default == nil
-				if !g.canHaveLiteral(fl.Type) {
+				if !g.canHaveLiteral(fl.Type) || (g.pureOnly && !need && !pureType(fl.Type)) {
 					continue
 				}
 				if !need && (g.mentionsStructAtOrAbove(fl.Type, g.structLimit, 0) || (g.structLimit != math.MaxInt32 && !g.literalUnder(fl.Type, g.structLimit, map[*Struct]bool{}))) {
@@ -1351,6 +1419,47 @@ func (g *semGen) twins() {
 			}
 		}
 	}
+}
+
+// mutualDefaults plants two structs that refer to each other where one has a
+// struct-literal default of the other, and the other has defaulted fields of
+// nameless types written in a form that differs from their linked form
+// (integer literals for double and bool). Whichever of the two is linked first,
+// the result must be the same.
+func (g *semGen) mutualDefaults() {
+	r := g.r
+	f := g.p.Files[r.Intn(len(g.p.Files))]
+	g.curFile = f
+	b := &Struct{Kind: KStruct, Name: g.name("St")}
+	a := &Struct{Kind: KStruct, Name: g.name("St")}
+	g.declare(f, b)
+	g.declare(f, a)
+	ref := func(s *Struct) *TypeRef { return &TypeRef{Kind: TNamed, Name: s.Name, Target: s, TFile: f} }
+	id := int64(0)
+	fld := func(name string, t *TypeRef, def *Const) *Field {
+		id += int64(r.Range(1, 3))
+		return &Field{ID: id, IDLit: strconv.FormatInt(id, 10), Req: ReqOptional, Name: g.name(name), Type: t, Default: def}
+	}
+	iv := int64(r.Intn(50))
+	bv := int64(r.Intn(2))
+	fields := []*Field{
+		fld("back", ref(a), nil),
+		fld("dbl", &TypeRef{Kind: TBase, Base: BDouble}, &Const{Kind: CInt, Int: iv, Lit: strconv.FormatInt(iv, 10)}),
+		fld("flag", &TypeRef{Kind: TBase, Base: BBool}, &Const{Kind: CInt, Int: bv, Lit: strconv.FormatInt(bv, 10)}),
+	}
+	if r.Bool() {
+		fields[0], fields[1] = fields[1], fields[0] // the back-reference is not always first
+		fields[0].ID, fields[1].ID = fields[1].ID, fields[0].ID
+		fields[0].IDLit, fields[1].IDLit = fields[1].IDLit, fields[0].IDLit
+	}
+	b.Fields = fields
+	id = 0
+	lit := &Const{Kind: CMap}
+	if r.Chance(1, 3) {
+		lit.Items = append(lit.Items, &Const{Kind: CString, Str: fields[2].Name}, &Const{Kind: CBool, Bool: r.Bool()})
+		lit.ItemPos = append(lit.ItemPos, Pos{})
+	}
+	a.Fields = []*Field{fld("peer", ref(b), lit), fld("n", &TypeRef{Kind: TBase, Base: BI32}, nil)}
 }
 
 // constRefs adds constants defined as a plain reference to another constant
